@@ -296,6 +296,15 @@ pub fn worker_main(prop: &Property, args: &WorkerArgs) -> i32 {
     let track = true;
     let hang_file = args.out_dir.join(format!("w{}-{}.hang", args.worker, args.profile));
     let cur_file = args.out_dir.join(format!("w{}-{}.current", args.worker, args.profile));
+    // self-test of the orchestrator's confirmation step (never set by a registered command): the first worker that
+    // sees the marker missing pretends to have been stopped by the watchdog
+    if let Ok(marker) = std::env::var("JLV_FAKE_STALL_ONCE") {
+        if args.worker == 3 && !std::path::Path::new(&marker).exists() {
+            let _ = std::fs::write(&marker, "x");
+            let _ = std::fs::write(&hang_file, json!({"sub": "selftest", "case_text": "null", "msg": "fake stall"}).to_string());
+            return 97;
+        }
+    }
     start_watchdog(hang_file, &CURRENT_SUB);
 
     let mut result = Map::new();
